@@ -41,7 +41,10 @@ var limits = map[string]float64{
 	"eig-backward-error":                  20000, // 189
 	"schur-vectors-orthogonality":         2000,  // 16.5
 	"schur-residual":                      2000,  // 17.6
-	"schur-norm-preserved":                500,   // 4.19
+	"similarity-norm-of-square":           2000,  // 19.6
+	"similarity-departure-from-normality": 2000,  // 14.2
+	"similarity-singular-values":          2000,  // 10.6
+	"schur-norm-preserved":                1000,  // 9.97
 	"eigvec-unit-norm":                    500,   // 1.5
 	"eigvec-right-residual":               500,   // 3.7
 	"eigvec-left-residual":                500,   // 3.8
